@@ -736,3 +736,73 @@ Example inert_paragraph_instance :
   forallb (fun c => lacks_nl_config c (join [10] (l :: ls))) [cfg_html; cfg_html_nohtml; cfg_markdown; cfg_latex; cfg_mathjax; cfg_default] = true /\
   inert_paragraph_b ($"a *b") [$"c* d"] = false /\ inert_paragraph_b ($"a [b](c)") [$"d"] = false.
 Proof. vm_compute. repeat split; reflexivity. Qed.
+
+(* ================= a static form, for whole trees of paragraphs ================= *)
+(* the characters an inert line may not hold at all; * _ [ ] ! & ; > ( ) are judged by position instead *)
+Definition triggers_i : list Z := [92; 96; 126; 60; 10; 36; 123; 124].
+Definition inert_chars (l : str) : bool := forallb (fun c => negb (mem c triggers_i)) l.
+
+Lemma inert_no c l : mem c triggers_i = true -> inert_chars l = true -> mem c l = false.
+Proof.
+  intros Hc. induction l as [|x l IH]; [reflexivity|]. unfold inert_chars. cbn [forallb]. intros H. apply andb_true_iff in H as [Hx Hl].
+  unfold mem. cbn [existsb]. fold (mem c l). rewrite (IH Hl), orb_false_r.
+  destruct (c =? x) eqn:E; [|reflexivity]. apply Z.eqb_eq in E. subst x. apply negb_true_iff in Hx. congruence.
+Qed.
+
+Lemma mem_join_lines c : c <> 10 -> forall ls, Forall (fun l => mem c l = false) ls -> mem c (join [10] ls) = false.
+Proof.
+  intros Hc. induction ls as [|l r IH]; intros H; [reflexivity|]. inversion H as [|? ? Hl Hr]; subst. destruct r as [|l2 r'].
+  - exact Hl.
+  - change (join [10] (l :: l2 :: r')) with (l ++ [10] ++ join [10] (l2 :: r')). unfold mem. rewrite !existsb_app. fold (mem c l). fold (mem c (join [10] (l2 :: r'))).
+    rewrite Hl, (IH Hr). cbn [existsb]. rewrite orb_false_r. apply Z.eqb_neq in Hc. rewrite Hc. reflexivity.
+Qed.
+
+(* the span types: every regex-defined token needs one of the characters such a text lacks *)
+Definition quiet_chars : list Z := [92; 126; 60; 36; 123; 124].
+Definition kind_quiet_i (k : span_kind) : bool :=
+  match k with
+  | SK_CoreTokens | SK_InlineCode | SK_RawText | SK_LineBreak => true
+  | _ => existsb (fun c => needs (fst (re_of k)) c) quiet_chars
+  end.
+Definition inert_spans (types : list span_kind) : bool :=
+  forallb kind_quiet_i (removelast types) &&
+  match filter (fun k => match k with SK_LineBreak => true | _ => false end) (removelast types) with [SK_LineBreak] => true | _ => false end.
+
+Lemma quiet_lacks s k : kind_quiet_i k = true -> (forall c, In c quiet_chars -> mem c s = false) -> lacks_nl s k = true.
+Proof.
+  intros Hk Hs. destruct k; try reflexivity; cbn [kind_quiet_i lacks_nl] in *;
+    apply existsb_exists in Hk as (c & Hin & Hn); apply existsb_exists; exists c;
+    (split; [unfold quiet_chars, probe in *; cbn [In] in *; intuition|rewrite Hn, (Hs c Hin); reflexivity]).
+Qed.
+
+(* the paragraph: its lines, and what the joined text must be *)
+Definition inert_para_b (ls : list str) : bool :=
+  let s := join [10] ls in
+  forallb inert_chars ls && no_link_paren s && closers_free s && amp_ok s.
+
+Lemma inert_para_core ls : inert_para_b ls = true -> inert_core (join [10] ls) /\ amp_ok (join [10] ls) = true /\
+  (forall c, In c quiet_chars -> mem c (join [10] ls) = false) /\ Forall (fun l => mem 10 l = false) ls.
+Proof.
+  unfold inert_para_b. cbv zeta. intros H. repeat rewrite andb_true_iff in H. destruct H as [[[Hc Hl] Hr] Ha].
+  assert (Hno : forall c, mem c triggers_i = true -> c <> 10 -> mem c (join [10] ls) = false).
+  { intros c Hc1 Hc2. apply (mem_join_lines c Hc2). apply Forall_forall. intros l Hin. rewrite forallb_forall in Hc. apply (inert_no c l Hc1 (Hc l Hin)). }
+  split; [|split; [exact Ha|split]].
+  - split; [apply Hno; [reflexivity|discriminate]|]. split; [apply Hno; [reflexivity|discriminate]|].
+    split; [apply no_link_paren_spec; exact Hl|apply closers_free_spec; exact Hr].
+  - intros c Hin. unfold quiet_chars in Hin. cbn [In] in Hin.
+    destruct Hin as [<-|[<-|[<-|[<-|[<-|[<-|[]]]]]]]; apply Hno; try reflexivity; discriminate.
+  - apply Forall_forall. intros l Hin. rewrite forallb_forall in Hc. apply (inert_no 10 l eq_refl (Hc l Hin)).
+Qed.
+
+Lemma srcs_inert_static types ls : inert_spans types = true -> inert_para_b ls = true ->
+  find_all (removelast types) (join [10] ls) [] [] = lb_srcs (join [10] ls).
+Proof.
+  intros Hs Hp. unfold inert_spans in Hs. apply andb_true_iff in Hs as [Hq Hl].
+  destruct (inert_para_core ls Hp) as (Hcore & _ & Hno & _).
+  apply srcs_inert; [exact Hcore| |destruct (filter _ _) as [|[] [|? ?]]; try discriminate; reflexivity].
+  apply forallb_forall. intros k Hk. rewrite forallb_forall in Hq. apply quiet_lacks; [apply Hq; exact Hk|exact Hno].
+Qed.
+
+Lemma inert_configs_static :
+  forallb (fun c => inert_spans (cfg_span c)) [cfg_html; cfg_html_nohtml; cfg_markdown; cfg_latex; cfg_mathjax; cfg_default] = true.
+Proof. vm_compute. reflexivity. Qed.
